@@ -125,7 +125,12 @@ def wl_reopen(tier, seed):
 def wl_sync(tier, seed):
     cnt, nops = (8, 100) if tier == "quick" else (80, 300)
     out = [gen.gen_sync(seed * 1000 + 200 + i, idbase=i * IDSTEP, nops=nops, nmaps=1 + i % 3, kill=(i % 3 == 2), name="sync_%d" % i) for i in range(cnt)]
-    return [("sync", out, dict(per_tlc=2 if tier == "quick" else 5, tlc_jobs=8, max_slots=300))]
+    batches = [("sync", out, dict(per_tlc=2 if tier == "quick" else 5, tlc_jobs=8, max_slots=300))]
+    # the same kind of scenarios with the OS syncs observed at syscall level (strace) instead of the hook
+    n2 = 2 if tier == "quick" else 16
+    out2 = [gen.gen_sync(seed * 1000 + 260 + i, idbase=(200 + i) * IDSTEP, nops=60 if tier == "quick" else 200, nmaps=1 + i % 3, kill=False, name="syncsys_%d" % i) for i in range(n2)]
+    batches.append(("sync_strace", out2, dict(per_tlc=2, tlc_jobs=8, max_slots=300, strace=True, op_timeout=60)))
+    return batches
 
 
 def wl_fault(tier, seed):
